@@ -254,6 +254,144 @@ def interleaved_bodies():
     return viols[:2], n
 
 
+def truncated_chunked():
+    """A chunked body whose stream ends before the terminating chunk is not 'the framed body': no way of reading it may
+    end in a clean end-of-file (the application would take a cut-off upload for a complete one)."""
+    from gunicorn.http.parser import RequestParser
+    viols = []
+    n = 0
+    cfg = gparse.make_cfg()
+    body = b"line one\nline two\n" + b"z" * 2500
+    for csize, trailer in ((7, b""), (1024, b""), (5000, b""), (1000, b"T: 1\r\n")):
+        wire = b"POST /t HTTP/1.1\r\nHost: h\r\nTransfer-Encoding: chunked\r\n\r\n" + chunked(body, csize, trailer=trailer)
+        head_len = wire.index(b"\r\n\r\n") + 4
+        end = len(wire)
+        cuts = sorted(set([head_len, head_len + 1, head_len + 3, head_len + 6, head_len + 20, head_len + 1100, end - 20, end - 8,
+                           end - 5, end - 4, end - 3, end - 2, end - 1]))
+        # judged only while the last-chunk line itself is incomplete: once '0 CRLF' is there every body byte has been
+        # delivered and announced as the last one (a missing trailer terminator is an incomplete message, not a short body)
+        last_chunk = end - len(b"0\r\n" + trailer + b"\r\n")
+        for cut in cuts + [last_chunk, last_chunk + 1, last_chunk + 2, last_chunk - 1, last_chunk - 2]:
+            if not head_len <= cut <= last_chunk + 2:
+                continue
+            for prog in ([("read", None)], [("read", 1000)], [("read", 1)], [("readline", None)], [("readline", 5)], [("readlines", None)], [("iter", None)]):
+                for seg in ("whole", "bytes"):
+                    data = wire[:cut]
+                    chunks = [data] if seg == "whole" else [data[:head_len]] + [data[i:i + 1] for i in range(head_len, len(data))]
+                    p_ = RequestParser(cfg, iter(chunks), ("127.0.0.1", 1))
+                    req = next(p_)
+                    n += 1
+                    got = []
+                    ended = None
+                    try:
+                        for _ in range(6000):
+                            op, k = prog[0]
+                            if op == "read":
+                                d = req.body.read() if k is None else req.body.read(k)
+                            elif op == "readline":
+                                d = req.body.readline() if k is None else req.body.readline(k)
+                            elif op == "readlines":
+                                d = b"".join(req.body.readlines())
+                            else:
+                                d = b"".join(list(req.body))
+                            got.append(d)
+                            if not d:
+                                ended = "eof"
+                                break
+                    except Exception as e:
+                        ended = type(e).__name__
+                    if ended == "eof":
+                        viols.append(violation("input-api:truncated-chunked-body-reads-as-complete",
+                                               "chunks of %d, stream ends %d bytes before the end of the message (%s reads): %s x N returned %d body bytes and then a clean "
+                                               "end-of-file - the body has %d" % (csize, end - cut, seg, prog[0], len(b"".join(got)), len(body)), {"truncated": True}))
+                        return viols, n
+                    if not body.startswith(b"".join(got)):
+                        viols.append(violation("input-api:truncated-chunked-body-wrong-bytes", "chunks of %d cut %d: pieces are not a prefix of the body" % (csize, cut),
+                                               {"truncated": True}))
+                        return viols, n
+    return viols, n
+
+
+class PartialApp:
+    """Reads only `take` bytes of the request body (None = nothing at all) and answers."""
+
+    def __init__(self):
+        self.take = None
+        self.calls = []
+
+    def __call__(self, environ, start_response):
+        got = b"" if self.take is None else environ["wsgi.input"].read(self.take)
+        self.calls.append((environ["PATH_INFO"], got))
+        out = b"got %d" % len(got)
+        start_response("200 OK", [("Content-Length", str(len(out)))])
+        return [out]
+
+
+def worker_level_next_request():
+    """The same promise through the real keep-alive loops of the workers (not the bare parser): whatever part of a body the
+    application consumed, the next request on the connection is the next application call - also when the rest of the body and
+    the next request arrive only after the response (Interleaver) or sit in the buffer already (one-shot)."""
+    from vlib import bench
+    viols = []
+    n = 0
+    for kind, kw in (("async", {"keepalive": 2}), ("gthread", {"keepalive": 2, "threads": 1, "worker_connections": 4})):
+        for blen in (10, 3000, 20000):
+            body = (b"0123456789" * (blen // 10 + 1))[:blen - 17] + b"GET /evil HTTP/1." if blen > 20 else b"0123456789"
+            body = body[:blen]
+            for framing in ("cl", "chunked"):
+                if framing == "cl":
+                    wire = b"POST /first HTTP/1.1\r\nHost: h\r\nContent-Length: %d\r\n\r\n" % len(body) + body
+                else:
+                    wire = b"POST /first HTTP/1.1\r\nHost: h\r\nTransfer-Encoding: chunked\r\n\r\n" + chunked(body, 1500, trailer=b"T: 1\r\n")
+                head_len = wire.index(b"\r\n\r\n") + 4
+                nxt = b"GET /second HTTP/1.1\r\nHost: h\r\nConnection: close\r\n\r\n"
+                for take in (None, 0, 5, blen, blen + 100):
+                    for late in (None, head_len, head_len + 4, head_len + min(blen, 9000) // 2):
+                        app = PartialApp()
+                        app.take = take
+                        b = bench.Bench(kind, kw, app)
+                        try:
+                            if late is None:
+                                o = b.connection(wire + nxt)
+                                exc = o.exc
+                            else:
+                                # the head and the first part of the body now, the rest (and the next request) once the
+                                # handler waits for more bytes - for an application that does not read, after the response
+                                il = bench.Interleaver(b)
+                                il.open("A", ("10.0.0.1", 5))
+                                il.send("A", wire[:late])
+                                il.send("A", wire[late:] + nxt)
+                                c = il.close("A")
+                                exc = c["exc"]
+                        finally:
+                            b.close()
+                        n += 1
+                        paths = [p_ for p_, _g in app.calls]
+                        want_first = b"" if take is None else body[:take]
+                        bad = None
+                        if exc:
+                            bad = "handle() raised %s" % exc
+                        elif not app.calls or app.calls[0] != ("/first", want_first):
+                            bad = "first application call %r" % (app.calls[:1],)
+                        elif paths != ["/first", "/second"]:
+                            bad = "application calls %r, the connection carried /first and /second" % (paths,)
+                        if bad:
+                            viols.append(violation("input-api:next-request-through-worker:%s" % framing,
+                                                   "worker=%s framing=%s body=%d bytes, application read %r, rest of the stream sent %s: %s" % (
+                                                       kind, framing, blen, take, "at once" if late is None else "after %d bytes" % late, bad),
+                                                   {"worker_level": True}))
+                            break
+                    if viols:
+                        break
+                if viols:
+                    break
+            if viols:
+                break
+        if len(viols) >= 2:
+            break
+    return viols[:2], n
+
+
 def run(ctx):
     L = 3 if ctx.thorough else 2
     B = bodies(ctx.thorough)
@@ -276,9 +414,15 @@ def run(ctx):
     viols = [v for r in res for v in r["viols"]]
     iv, ni = interleaved_bodies()
     viols += iv
+    wv, nw = worker_level_next_request()
+    viols += wv
+    tv, nt = truncated_chunked()
+    viols += tv
+    nw += nt
     cov = {
         "interleaved_two_connection_body_reads": ni,
-        "evaluations": sum(r["evals"] for r in res) + ni,
+        "worker_level_next_request_cells": nw,
+        "evaluations": sum(r["evals"] for r in res) + ni + nw,
         "distinct_nontrivial": sum(r["nontriv"] for r in res),
         "rule": "every (body, framing, segmentation, program of <=L calls over %d operations) is one case; "
                 "non-trivial = not the single call read()/read(-1)" % len(OPS),
@@ -298,6 +442,12 @@ def replay(case):
     if case.get("interleaved"):
         iv, _ = interleaved_bodies()
         return iv[0] if iv else None
+    if case.get("truncated"):
+        tv, _ = truncated_chunked()
+        return tv[0] if tv else None
+    if case.get("worker_level"):
+        wv, _ = worker_level_next_request()
+        return wv[0] if wv else None
     body = case["body"].encode("latin-1")
     cfg = gparse.make_cfg()
     for fname, stream in framings(body):
